@@ -21,6 +21,7 @@ fn virtual_cfg() -> Cfg {
     c.max_depth = 3;
     c.widths = Widths::All64;
     c.expr.boundary = true;
+    c.expr.radix = false;
     c
 }
 
@@ -42,7 +43,9 @@ impl Property for C14 {
     }
     fn run(&self, s: &Streams) -> CaseOut {
         let mut out = CaseOut::new();
-        let built = gen_case(&mut Ch::new(&s[0]), &virtual_cfg());
+        let mut built = gen_case(&mut Ch::new(&s[0]), &virtual_cfg());
+        // operator binding is C08's business: every operand is parenthesised
+        parenthesise_program(&mut built.prog.stmts);
         let rendered = crate::print::canonical(&built.prog);
         let row_lines = rendered.row_line.clone();
         let text = rendered.text;
